@@ -12,7 +12,7 @@ pub struct P;
 pub static C08: P = P;
 
 const NPLACES: usize = 8;
-const NCONTENTS: usize = 8;
+const NCONTENTS: usize = 9;
 const HREFS: [&str; 4] = ["/1", "/2", "/1", "/3"];
 
 fn place(pi: usize, l: N) -> N {
@@ -37,6 +37,8 @@ fn content(ci: usize, c: char) -> Vec<N> {
         5 => vec![e("em", vec![e("em", vec![])])],
         // link texts of several words (a soft wrap can fall inside the link)
         6 => vec![t(&format!("{c}{c}{c} {c}{c}{c}"))],
+        // a line break only: no content
+        8 => vec![e("br", vec![])],
         _ => vec![t(&format!("{c} ")), e("em", vec![t(&format!("{c}{c}"))]), t(&format!(" {c}{c}{c}{c}"))],
     }
 }
@@ -425,7 +427,7 @@ impl Scope for S {
     }
     fn info(&self) -> Info {
         Info {
-            rule: "documents of 0..maxk links, each placed in one of 8 containers (paragraph, list item, quote, heading, table cell, nested table cell, dt, pre) with one of 8 contents (text, em, image, empty, whitespace, deeply empty, two words, three words with em; 5 of them for documents of 3+ links), repeated targets; plus multi-word links placed after 0..15 columns of text in a paragraph / list item / quote at every width 8..=44; plus two links whose first target is 1..40 characters long at every width 4..=48 (footnote entries that wrap, incl. exact multiples of the width); plus documents of 9..40 links in a paragraph / ordered list / quote with list (two-digit references, repeated targets, empty links); x widths x {plain, plain without footnotes, trivial with/without footnotes, rich with footnotes}; non-trivial = >= 2 links with content".into(),
+            rule: "documents of 0..maxk links, each placed in one of 8 containers (paragraph, list item, quote, heading, table cell, nested table cell, dt, pre) with one of 9 contents (text, em, image, empty, whitespace, deeply empty, two words, three words with em, a lone <br>; 5 of them for documents of 3+ links), repeated targets; plus multi-word links placed after 0..15 columns of text in a paragraph / list item / quote at every width 8..=44; plus two links whose first target is 1..40 characters long at every width 4..=48 (footnote entries that wrap, incl. exact multiples of the width); plus documents of 9..40 links in a paragraph / ordered list / quote with list (two-digit references, repeated targets, empty links); x widths x {plain, plain without footnotes, trivial with/without footnotes, rich with footnotes}; non-trivial = >= 2 links with content".into(),
             bounds: json!({"max_links": self.maxk, "places": NPLACES, "contents": NCONTENTS, "widths_3_or_more_links": self.widths, "widths_up_to_2_links": "8..=40"}),
             assumptions: vec!["a footnote entry wider than the width is expected as its greedy cut into pieces of at most w columns (the statement's 'after unwrapping at width')".into()],
         }
